@@ -269,6 +269,174 @@ func nOf(q, t int) func(string) int {
 	}
 }
 
+// Emit receives one generated input.
+type Emit func(enc string, t *Target, data []byte, class string)
+
+// Generators produce the hostile corpus, family by family; C02 probes every input, C18 runs
+// its fixed-point oracle on the accepted ones.
+var Generators = map[string]func(r *core.Rand, i int, emit Emit, distinct func(uint64)){
+	"json-mut": func(r *core.Rand, i int, emit Emit, distinct func(uint64)) {
+		var data []byte
+		var nat *Target
+		if i%4 == 3 {
+			data, nat = SeedPayload(r, "json")
+		} else {
+			data, nat = SeedMessage(r, "json")
+		}
+		if len(data) > 40000 {
+			return
+		}
+		for k := 0; k < 10; k++ {
+			m := gen.JSONMutate(r, data)
+			t := nat
+			switch r.Intn(4) {
+			case 0:
+				t = val
+			case 1:
+				t = anyTarget(r)
+			}
+			distinct(core.HashBytes(m))
+			emit("json", t, m, "json-mutant")
+		}
+	},
+	"bin-ladder": func(r *core.Rand, i int, emit Emit, distinct func(uint64)) {
+		var data []byte
+		var nat *Target
+		if i%3 == 2 {
+			data, nat = SeedPayload(r, "ttlv")
+		} else {
+			data, nat = SeedMessage(r, "ttlv")
+		}
+		if len(data) > 6000 {
+			return
+		}
+		for _, it := range gen.Items(data) {
+			for _, l := range gen.LengthLadder(it) {
+				m := gen.MutLen(data, it, l)
+				distinct(core.HashBytes(m))
+				emit("ttlv", nat, m, "length-ladder")
+				emit("ttlv", val, m, "length-ladder")
+			}
+			for _, ty := range gen.TypeLadder {
+				m := gen.MutType(data, it, ty)
+				distinct(core.HashBytes(m))
+				emit("ttlv", nat, m, "type-ladder")
+				emit("ttlv", val, m, "type-ladder")
+			}
+		}
+	},
+	"bin-truncate": func(r *core.Rand, i int, emit Emit, distinct func(uint64)) {
+		data, nat := SeedMessage(r, "ttlv")
+		if len(data) > 3000 {
+			data = data[:3000]
+		}
+		for k := 0; k <= len(data); k++ {
+			emit("ttlv", nat, data[:k], "truncated")
+			if k%4 == 0 {
+				emit("ttlv", val, data[:k], "truncated")
+			}
+		}
+		distinct(core.HashBytes(data))
+	},
+	"bin-random": func(r *core.Rand, i int, emit Emit, distinct func(uint64)) {
+		data, nat := SeedMessage(r, "ttlv")
+		other, _ := SeedPayload(r, "ttlv")
+		for k := 0; k < 12; k++ {
+			m := gen.RandomMutation(r, data, other)
+			if len(m) > 65536 {
+				m = m[:65536]
+			}
+			t := nat
+			switch r.Intn(4) {
+			case 0:
+				t = val
+			case 1:
+				t = anyTarget(r)
+			}
+			distinct(core.HashBytes(m))
+			emit("ttlv", t, m, "random-mutation")
+		}
+		// valid payload bytes against a foreign target
+		emit("ttlv", anyTarget(r), other, "foreign-target")
+	},
+	"bin-nesting": func(r *core.Rand, i int, emit Emit, distinct func(uint64)) {
+		levels := []int{1, 2, 16, 256, 4096, 20000, 65536, 131072}[i%8]
+		tn := []string{"Value", "RequestMessage", "Attribute", "TemplateAttribute", "GetResponsePayload", "KeyBlock"}[i/8]
+		t := TargetByName(tn)
+		tag := kmip.TagTemplateAttribute
+		if tn == "RequestMessage" {
+			tag = kmip.TagRequestMessage
+		}
+		if tn == "Attribute" {
+			tag = kmip.TagAttribute
+		}
+		m := gen.DeepNest(tag, levels)
+		distinct(core.Hash64("nest", tn, fmt.Sprint(levels)))
+		emit("ttlv", t, m, fmt.Sprintf("nesting-%d", levels))
+
+	},
+	"xml-mut": func(r *core.Rand, i int, emit Emit, distinct func(uint64)) {
+		var data []byte
+		var nat *Target
+		switch i % 4 {
+		case 3:
+			data, nat = SeedPayload(r, "xml")
+		case 2:
+			ms := OasisMessages()
+			if len(ms) == 0 {
+				return
+			}
+			data = ms[r.Intn(len(ms))]
+			nat = TargetByName("RequestMessage")
+			if bytes.HasPrefix(data, []byte("<ResponseMessage")) {
+				nat = TargetByName("ResponseMessage")
+			}
+
+		default:
+			data, nat = SeedMessage(r, "xml")
+		}
+		if len(data) > 40000 {
+			return
+		}
+		for k := 0; k < 10; k++ {
+			m := gen.XMLMutate(r, data)
+			t := nat
+			switch r.Intn(4) {
+			case 0:
+				t = val
+			case 1:
+				t = anyTarget(r)
+			}
+			distinct(core.HashBytes(m))
+			emit("xml", t, m, "xml-mutant")
+		}
+	},
+	"text-junk": func(r *core.Rand, i int, emit Emit, distinct func(uint64)) {
+		t := &Targets()[i]
+		for _, d := range gen.JSONTopLevelJunk() {
+			distinct(core.Hash64("jj", t.Name, string(d)))
+			emit("json", t, d, "json-junk")
+		}
+		for _, d := range gen.XMLJunk() {
+			distinct(core.Hash64("xj", t.Name, string(d)))
+			emit("xml", t, d, "xml-junk")
+		}
+	},
+	"text-nesting": func(r *core.Rand, i int, emit Emit, distinct func(uint64)) {
+		levels := []int{2, 100, 5000, 9999, 10001, 60000}[i%6]
+		for _, tn := range []string{"Value", "Attribute", "TemplateAttribute"} {
+			if i/6 == 0 {
+				emit("json", TargetByName(tn), gen.JSONDeepNest(levels), fmt.Sprintf("json-nesting-%d", levels))
+			} else {
+				emit("xml", TargetByName(tn), gen.XMLDeepNest(levels), fmt.Sprintf("xml-nesting-%d", levels))
+			}
+		}
+		distinct(core.Hash64("tn", fmt.Sprint(i)))
+	},
+}
+
+var val = &Target{"Value", func() any { return &ttlv.Value{} }, 0}
+
 type chunkReader struct {
 	data   []byte
 	sizes  []int
@@ -295,10 +463,7 @@ func (c *chunkReader) Read(p []byte) (int, error) {
 func (c *chunkReader) Write(p []byte) (int, error) { return len(p), nil }
 func (c *chunkReader) Close() error                { c.closed = true; return nil }
 
-
-
 func Spec() *core.Spec {
-	val := TargetByName("Value")
 	return &core.Spec{
 		ID:    "C02",
 		Level: "exploration",
@@ -312,163 +477,29 @@ func Spec() *core.Spec {
 		EvalCounter: "decodes",
 		Families: []core.Family{
 			{Name: "bin-ladder", N: nOf(400, 6000), Run: func(c *core.Ctx, r *core.Rand, i int) {
-				var data []byte
-				var nat *Target
-				if i%3 == 2 {
-					data, nat = SeedPayload(r, "ttlv")
-				} else {
-					data, nat = SeedMessage(r, "ttlv")
-				}
-				if len(data) > 6000 {
-					return
-				}
-				for _, it := range gen.Items(data) {
-					for _, l := range gen.LengthLadder(it) {
-						m := gen.MutLen(data, it, l)
-						c.Distinct(core.HashBytes(m))
-						Probe(c, "C02", "ttlv", nat, m, "length-ladder")
-						Probe(c, "C02", "ttlv", val, m, "length-ladder")
-					}
-					for _, ty := range gen.TypeLadder {
-						m := gen.MutType(data, it, ty)
-						c.Distinct(core.HashBytes(m))
-						Probe(c, "C02", "ttlv", nat, m, "type-ladder")
-						Probe(c, "C02", "ttlv", val, m, "type-ladder")
-					}
-				}
+				Generators["bin-ladder"](r, i, func(enc string, t *Target, data []byte, class string) { Probe(c, "C02", enc, t, data, class) }, c.Distinct)
 			}},
 			{Name: "bin-truncate", N: nOf(60, 3000), Run: func(c *core.Ctx, r *core.Rand, i int) {
-				data, nat := SeedMessage(r, "ttlv")
-				if len(data) > 3000 {
-					data = data[:3000]
-				}
-				for k := 0; k <= len(data); k++ {
-					Probe(c, "C02", "ttlv", nat, data[:k], "truncated")
-					if k%4 == 0 {
-						Probe(c, "C02", "ttlv", val, data[:k], "truncated")
-					}
-				}
-				c.Distinct(core.HashBytes(data))
+				Generators["bin-truncate"](r, i, func(enc string, t *Target, data []byte, class string) { Probe(c, "C02", enc, t, data, class) }, c.Distinct)
 			}},
 			{Name: "bin-random", N: nOf(8000, 200000), Run: func(c *core.Ctx, r *core.Rand, i int) {
-				data, nat := SeedMessage(r, "ttlv")
-				other, _ := SeedPayload(r, "ttlv")
-				for k := 0; k < 12; k++ {
-					m := gen.RandomMutation(r, data, other)
-					if len(m) > 65536 {
-						m = m[:65536]
-					}
-					t := nat
-					switch r.Intn(4) {
-					case 0:
-						t = val
-					case 1:
-						t = anyTarget(r)
-					}
-					c.Distinct(core.HashBytes(m))
-					Probe(c, "C02", "ttlv", t, m, "random-mutation")
-				}
-				// valid payload bytes against a foreign target
-				Probe(c, "C02", "ttlv", anyTarget(r), other, "foreign-target")
+				Generators["bin-random"](r, i, func(enc string, t *Target, data []byte, class string) { Probe(c, "C02", enc, t, data, class) }, c.Distinct)
 			}},
 			{Name: "bin-nesting", Exhaustive: true, N: func(string) int { return 8 * 6 }, Timeout: 0, Run: func(c *core.Ctx, r *core.Rand, i int) {
-				levels := []int{1, 2, 16, 256, 4096, 20000, 65536, 131072}[i%8]
-				tn := []string{"Value", "RequestMessage", "Attribute", "TemplateAttribute", "GetResponsePayload", "KeyBlock"}[i/8]
-				t := TargetByName(tn)
-				tag := kmip.TagTemplateAttribute
-				if tn == "RequestMessage" {
-					tag = kmip.TagRequestMessage
-				}
-				if tn == "Attribute" {
-					tag = kmip.TagAttribute
-				}
-				m := gen.DeepNest(tag, levels)
-				c.Distinct(core.Hash64("nest", tn, fmt.Sprint(levels)))
-				Probe(c, "C02", "ttlv", t, m, fmt.Sprintf("nesting-%d", levels))
-				c.Count("nesting_levels_max", 0)
+				Generators["bin-nesting"](r, i, func(enc string, t *Target, data []byte, class string) { Probe(c, "C02", enc, t, data, class) }, c.Distinct)
 			}},
 			{Name: "bin-extent", N: nOf(1000, 20000), Run: func(c *core.Ctx, r *core.Rand, i int) { extentCase(c, r, i) }},
 			{Name: "json-mut", N: nOf(5000, 100000), Run: func(c *core.Ctx, r *core.Rand, i int) {
-				var data []byte
-				var nat *Target
-				if i%4 == 3 {
-					data, nat = SeedPayload(r, "json")
-				} else {
-					data, nat = SeedMessage(r, "json")
-				}
-				if len(data) > 40000 {
-					return
-				}
-				for k := 0; k < 10; k++ {
-					m := gen.JSONMutate(r, data)
-					t := nat
-					switch r.Intn(4) {
-					case 0:
-						t = val
-					case 1:
-						t = anyTarget(r)
-					}
-					c.Distinct(core.HashBytes(m))
-					Probe(c, "C02", "json", t, m, "json-mutant")
-				}
+				Generators["json-mut"](r, i, func(enc string, t *Target, data []byte, class string) { Probe(c, "C02", enc, t, data, class) }, c.Distinct)
 			}},
 			{Name: "xml-mut", N: nOf(5000, 100000), Run: func(c *core.Ctx, r *core.Rand, i int) {
-				var data []byte
-				var nat *Target
-				switch i % 4 {
-				case 3:
-					data, nat = SeedPayload(r, "xml")
-				case 2:
-					ms := OasisMessages()
-					if len(ms) == 0 {
-						return
-					}
-					data = ms[r.Intn(len(ms))]
-					nat = TargetByName("RequestMessage")
-					if bytes.HasPrefix(data, []byte("<ResponseMessage")) {
-						nat = TargetByName("ResponseMessage")
-					}
-					c.Count("oasis_seeds", 1)
-				default:
-					data, nat = SeedMessage(r, "xml")
-				}
-				if len(data) > 40000 {
-					return
-				}
-				for k := 0; k < 10; k++ {
-					m := gen.XMLMutate(r, data)
-					t := nat
-					switch r.Intn(4) {
-					case 0:
-						t = val
-					case 1:
-						t = anyTarget(r)
-					}
-					c.Distinct(core.HashBytes(m))
-					Probe(c, "C02", "xml", t, m, "xml-mutant")
-				}
+				Generators["xml-mut"](r, i, func(enc string, t *Target, data []byte, class string) { Probe(c, "C02", enc, t, data, class) }, c.Distinct)
 			}},
 			{Name: "text-junk", Exhaustive: true, N: func(string) int { return len(Targets()) }, Run: func(c *core.Ctx, r *core.Rand, i int) {
-				t := &Targets()[i]
-				for _, d := range gen.JSONTopLevelJunk() {
-					c.Distinct(core.Hash64("jj", t.Name, string(d)))
-					Probe(c, "C02", "json", t, d, "json-junk")
-				}
-				for _, d := range gen.XMLJunk() {
-					c.Distinct(core.Hash64("xj", t.Name, string(d)))
-					Probe(c, "C02", "xml", t, d, "xml-junk")
-				}
+				Generators["text-junk"](r, i, func(enc string, t *Target, data []byte, class string) { Probe(c, "C02", enc, t, data, class) }, c.Distinct)
 			}},
 			{Name: "text-nesting", Exhaustive: true, N: func(string) int { return 6 * 2 }, Run: func(c *core.Ctx, r *core.Rand, i int) {
-				levels := []int{2, 100, 5000, 9999, 10001, 60000}[i%6]
-				for _, tn := range []string{"Value", "Attribute", "TemplateAttribute"} {
-					if i/6 == 0 {
-						Probe(c, "C02", "json", TargetByName(tn), gen.JSONDeepNest(levels), fmt.Sprintf("json-nesting-%d", levels))
-					} else {
-						Probe(c, "C02", "xml", TargetByName(tn), gen.XMLDeepNest(levels), fmt.Sprintf("xml-nesting-%d", levels))
-					}
-				}
-				c.Distinct(core.Hash64("tn", fmt.Sprint(i)))
+				Generators["text-nesting"](r, i, func(enc string, t *Target, data []byte, class string) { Probe(c, "C02", enc, t, data, class) }, c.Distinct)
 			}},
 			{Name: "stream", N: nOf(4000, 80000), Run: func(c *core.Ctx, r *core.Rand, i int) {
 				data, _ := SeedMessage(r, "ttlv")
